@@ -1226,6 +1226,10 @@ fn run_feat(c: &Case) -> Obs {
                         p += op.len();
                     }
                 }
+                if nul && obs == "Err:InvalidInput" {
+                    // /repo refuses the value (fix 10): nothing is written, nothing is lost
+                    return Obs::ok(obs, false);
+                }
                 fail(
                     if nul { "cram-clip-or-insertion-base-nul-byte-cuts-feature" } else { "feat-roundtrip" },
                     format!("cigar {cig_in} seq {} -> {obs}", hex(&seq)),
